@@ -94,6 +94,9 @@ type Fault struct {
 	Kind    string `json:"kind"` // restart | crash_commit | power_loss
 	K       int    `json:"k"`    // crash_commit: write event index within the Commit (mod #events unless Exact); power_loss: events undone
 	Exact   bool   `json:"exact,omitempty"`
+	// IOErr: the fault is an I/O error on that write (it panics, the database keeps working while the panic unwinds
+	// and for whatever the application does before the process is gone), not the death of the process at that write
+	IOErr bool `json:"io_err,omitempty"`
 }
 
 type ReadOnly struct {
